@@ -23,7 +23,7 @@ ASSUMPTIONS = ["pad widths are non-negative; operator pad with some trailing mod
                "diag extraction is generated for square operators only"]
 
 SZ = (1, 2, 3, 4, 5)
-VALUES = [0, 0, 2, -1.5, 0.5]
+VALUES = [0, 0, 2, -1.5, 0.5, 0.3, 1.0 / 3.0, -0.1]
 
 
 @st.composite
@@ -155,8 +155,10 @@ def execute(case):
         mixed = any((p[0] + p[1]) > 0 for p in padding)
         if mixed:
             ck.label("pad:some_mode_padded")
-        ex = exact and float(val) == int(val) or (exact and val in (0.5, -1.5))
-        _check_tt(ck, T, res, ref, ref_abs, dt, ex, False)
+        ex = exact and val in (0, 2, -1.5, 0.5)
+        if val not in (0, 2, -1.5, 0.5):
+            ck.label("pad:value_not_dyadic")
+        _check_tt(ck, T, res, ref, ref_abs, dt, ex, False, C=16)
         ck.nontrivial = big and mixed
         return ck.verdict()
 
@@ -192,7 +194,7 @@ def execute(case):
         if 0 < len(padding) < d:
             ck.label("pad:subset_of_modes")
         mixed = any((p[0] + p[1]) > 0 for p in padding)
-        _check_tt(ck, T, res, ref, ref_abs, dt, exact, True)
+        _check_tt(ck, T, res, ref, ref_abs, dt, exact and val in (0, 2, -1.5, 0.5), True, C=16)
         ck.nontrivial = big and mixed
         return ck.verdict()
 
